@@ -248,6 +248,8 @@ def rand_row(rng, length, kinds="both"):
 
 def rand_step(rng, H, W):
     form = rng.choice(["slice2d"] * 5 + ["rowslice", "introw", "intcol", "int2d"])
+    if W == 0 and form in ("intcol", "int2d"):
+        form = "slice2d"          # a zero-width array has no column an integer could name
     r0 = rng.randint(0, H + 1)
     r1 = r0 + rng.choice([0, 1, 1, 1, 1, 2, 2, 3])
     c0 = rng.randint(0, max(0, W - 1)) if rng.random() < .85 else W
